@@ -12,6 +12,6 @@ if ! git -C $WT apply "$HERE/seeded/$S/patch.diff" 2>/dev/null; then
 fi
 mkdir -p "$HERE/.cache"
 VERIF_REPO=$WT VERIF_OUT=$OUT "$HERE/check" $C --tier $T --seed ${CHECK_SEED:-0} > "$HERE/.cache/try.$S.$C.out" 2>&1; RC=$?
-git -C /repo worktree remove --force $WT; git -C /repo worktree prune; rm -rf $OUT
+git -C /repo worktree remove --force $WT; git -C /repo worktree prune; rm -rf $OUT "$HERE/.cache/pyc$WT"
 grep -E "VIOLATION|INCONCLUSIVE|violated:" "$HERE/.cache/try.$S.$C.out" | head -${LINES_SHOWN:-4}
 echo "seed=$S check=$C exit=$RC"
